@@ -51,6 +51,8 @@ def ir_rule(r):
     r = dict(r)
     if isinstance(r.get("export"), list):
         r["export"] = ir_export(r["export"])
+    if "sharable" in r and "shareable" not in r:      # serde alias (the old spelling); both at once is a duplicate field: not generated
+        r["shareable"] = r.pop("sharable")
     return r
 
 
@@ -70,6 +72,8 @@ def ir_context(c):
         c["tasks"] = [[k, ir_task(v)] for k, v in c["tasks"].items()]
     if isinstance(c.get("rules"), list):
         c["rules"] = [ir_rule(r) for r in c["rules"]]
+    if "buildable" in c and "is_builder" not in c:    # serde alias
+        c["is_builder"] = c.pop("buildable")
     return c
 
 
@@ -84,6 +88,8 @@ def ir_module(m):
         m["env"] = {k: (pairs(v) if isinstance(v, dict) else v) for k, v in m["env"].items()}
     if isinstance(m.get("tasks"), dict):
         m["tasks"] = [[k, ir_task(v)] for k, v in m["tasks"].items()]
+    if "disables" in m and "conflicts" not in m:      # serde alias
+        m["conflicts"] = m.pop("disables")
     return m
 
 
@@ -147,6 +153,8 @@ def run_laze(d, args, extra_env=None, global_mode=True, timeout=20, task=None, c
         cmd.append("-g")
     if generate_only:
         cmd.append("-G")
+    if args.get("build_dir"):
+        cmd += ["-B", args["build_dir"]]          # relative to the project root, wherever laze is started
     cmd += list(more) + cli_args(args)
     if task:
         cmd += task
@@ -237,7 +245,7 @@ def run_impl(project, keep=False, extra_env=None):
         r["dump"] = read_dump(d)
         if more:
             r["insights"] = read_insights(info)
-        nf = os.path.join(d, "build", "build-local.ninja" if local is not None else "build-global.ninja")
+        nf = os.path.join(d, args.get("build_dir") or "build", "build-local.ninja" if local is not None else "build-global.ninja")
         r["ninja"] = open(nf).read() if os.path.exists(nf) else None
         r["root"] = root
         return r
@@ -257,7 +265,7 @@ def run_impl_seq(project, arg_list):
         for args in arg_list:
             r = run_laze(d, args, retry=False, timeout=160)
             r["dump"] = read_dump(d)
-            nf = os.path.join(d, "build", "build-global.ninja")
+            nf = os.path.join(d, "build", "build-local.ninja" if args.get("local") is not None else "build-global.ninja")
             r["ninja"] = open(nf).read() if os.path.exists(nf) else None
             r["root"] = os.path.realpath(d)
             r["hit"] = "laze: reading cache took" in (r["stdout"] or "")
